@@ -176,7 +176,126 @@ def vector_case(case):
     return r
 
 
+def options_case(case):
+    """the other ways of calling the two solvers - return_interval, verbose, a tolerance below eps, one array-valued function instead of a list (with and without
+    a mask argument), scalar bounds shared by a list of functions - must give the answer of the plain call (each answer is judged by the clauses above too)"""
+    import contextlib
+    import io
+    opt, D = _imports()
+    r = Res()
+    dtype = DT[case["dtype"]]
+    tol = case["tol"]
+    tol_eff = eff_tol(tol, dtype, D)
+    fn = case["fn"]
+    brs = [b_ for b_ in BRACKETS if b_[2] == 0.3][:8]
+    for s in case["scales"]:
+        # ---- scalar solver
+        for (a, b, rt) in BRACKETS:
+            f = make_fn(fn, rt, s, dtype)
+            cs = dict(section="options", dtype=case["dtype"], tol=tol, fn=fn, bracket=[a, b], root=rt, scale=s)
+            x0, ok0 = opt.brentsroot(f, [dtype(a), dtype(b)], tol=tol)
+            res1 = opt.brentsroot(f, [dtype(a), dtype(b)], tol=tol, return_interval=True)
+            # (without a sign change the scalar solver answers with its (inf, False) sentinel and no interval, whatever return_interval says: observed, counted,
+            #  not judged - the statement says nothing about the interval)
+            x1, ok1, iv = res1 if len(res1) == 3 else (res1[0], res1[1], None)
+            if iv is None:
+                r.add("sentinel_without_interval")
+            with contextlib.redirect_stdout(io.StringIO()):
+                x2, ok2 = opt.brentsroot(f, [dtype(a), dtype(b)], tol=tol, verbose=True)
+            x3, ok3 = opt.brentsroot(f, [dtype(a), dtype(b)], tol=(1e-30 if tol is None else tol))
+            r.n += 4
+            same = lambda u, v: (not np.isfinite(u) and not np.isfinite(v)) or float(u) == float(v)
+            for label, xx, okk in (("return_interval", x1, ok1), ("verbose", x2, ok2), ("tol-below-eps", x3, ok3)):
+                if not same(xx, x0) or bool(okk) != bool(ok0):
+                    r.v("C14/options/scalar-%s/%s" % (label, fn), "an option that only changes what is reported does not change the answer", dict(cs, option=label),
+                        observed=dict(plain=[float(x0), bool(ok0)], with_option=[float(xx), bool(okk)]), expected="identical")
+                    break
+            if np.isfinite(x0) and iv is not None:
+                lo, hi = min(float(dtype(a)), float(dtype(b))), max(float(dtype(a)), float(dtype(b)))
+                ia, ib = float(iv[0]), float(iv[1])
+                if not (lo <= ia <= hi and lo <= ib <= hi and float(x1) in (ia, ib)):
+                    r.v("C14/options/scalar-interval/%s" % fn, "the reported interval lies inside the bracket and has the returned point as an end", dict(cs, option="return_interval"),
+                        observed=dict(interval=[ia, ib], x=float(x1), bracket=[a, b]), expected="inside, x at an end")
+            judge(r, "C14/options/scalar/%s" % fn, f, a, b, x1, bool(ok1), tol_eff, dtype, cs)
+        # ---- vector solver: one function family, a vector of brackets
+        A = np.array([b_[0] for b_ in brs], dtype=dtype); B = np.array([b_[1] for b_ in brs], dtype=dtype)
+        R = np.array([b_[2] for b_ in brs], dtype=dtype)
+        S = np.array([s * (10.0 ** (i % 3 - 1)) for i in range(len(brs))], dtype=dtype)
+        fs = [make_fn(fn, float(R[i]), float(S[i]), dtype) for i in range(len(brs))]
+        fv = make_fn_vec(fn, R, S, dtype)
+        calls = dict(interesting=[0])
+
+        def f_plain(x):
+            return fv(x)
+
+        def f_mask_zero(x, mask=None):
+            out = fv(x)
+            return out if mask is None else np.where(mask, out, dtype(0))
+
+        def f_mask_raw(x, mask=None):
+            return fv(x)            # a mask-accepting function that evaluates everything anyway (allowed: masked entries are the solver's to ignore)
+        x0, ok0 = opt.brentsrootvec(fs, [A.copy(), B.copy()], tol=tol)
+        variants = [("array-function", lambda: opt.brentsrootvec(f_plain, [A.copy(), B.copy()], tol=tol)),
+                    ("mask-zero-filled", lambda: opt.brentsrootvec(f_mask_zero, [A.copy(), B.copy()], tol=tol, accepts_mask=True)),
+                    ("mask-not-filled", lambda: opt.brentsrootvec(f_mask_raw, [A.copy(), B.copy()], tol=tol, accepts_mask=True)),
+                    ("return_interval", lambda: opt.brentsrootvec(fs, [A.copy(), B.copy()], tol=tol, return_interval=True)[:2]),
+                    ("verbose", lambda: opt.brentsrootvec(fs, [A.copy(), B.copy()], tol=tol, verbose=True)),
+                    ("tol-below-eps", lambda: opt.brentsrootvec(fs, [A.copy(), B.copy()], tol=(1e-30 if tol is None else tol)))]
+        for label, call in variants:
+            cs = dict(section="options", dtype=case["dtype"], tol=tol, fn=fn, scale=s, option=label)
+            with contextlib.redirect_stdout(io.StringIO()):
+                xv, okv = call()
+            r.n += 1
+            xv = np.asarray(xv); okv = np.asarray(okv)
+            if xv.shape != x0.shape or okv.shape != ok0.shape:
+                r.v("C14/options/vector-%s/%s" % (label, fn), "one point and one flag per component", cs, observed=dict(x=list(xv.shape), ok=list(okv.shape)), expected=list(x0.shape))
+                continue
+            for i, br in enumerate(brs):
+                judge(r, "C14/options/vector-%s/%s" % (label, fn), fs[i], br[0], br[1], xv[i], bool(okv[i]), tol_eff, dtype, dict(cs, component=i, bracket=list(br[:2]), root=br[2]))
+                sc_change = np.sign(fs[i](dtype(br[0]))) * np.sign(fs[i](dtype(br[1]))) < 0
+                if sc_change and bool(okv[i]) != bool(ok0[i]):
+                    r.v("C14/options/vector-%s/%s" % (label, fn), "every way of passing the functions gives the same flags", dict(cs, component=i, bracket=list(br[:2])),
+                        observed=dict(list_call=bool(ok0[i]), this_call=bool(okv[i])), expected="identical")
+                    break
+        # ---- scalar bounds shared by a list of functions (same bracket for all)
+        for (a, b, rt) in ((-1.0, 2.0, 0.3), (2.0, -1.0, 0.3)):
+            fl = [make_fn(fn, rt + 0.125 * j, s, dtype) for j in range(3)]
+            for bounds, label in (([dtype(a), dtype(b)], "0-d bounds"), ([np.array([a], dtype=dtype), np.array([b], dtype=dtype)], "one-element bounds")):
+                xs, oks = opt.brentsrootvec(fl, bounds, tol=tol)
+                r.n += 1
+                xs = np.asarray(xs); oks = np.asarray(oks)
+                cs = dict(section="options", dtype=case["dtype"], tol=tol, fn=fn, scale=s, option=label, bracket=[a, b])
+                if xs.shape != (3,) or oks.shape != (3,):
+                    r.v("C14/options/shared-bounds/%s" % fn, "one point and one flag per function", cs, observed=dict(x=list(xs.shape), ok=list(oks.shape)), expected=[3])
+                    continue
+                for j in range(3):
+                    judge(r, "C14/options/shared-bounds/%s" % fn, fl[j], a, b, xs[j], bool(oks[j]), tol_eff, dtype, dict(cs, component=j, root=rt + 0.125 * j))
+    r.out(("options", fn, case["dtype"], case["tol"]))
+    return r
+
+
+def make_fn_vec(name, R, S, dtype):
+    """the same families as make_fn with one (root, scale) per component"""
+    if name == "linear":
+        return lambda x: S * (x - R)
+    if name == "cubic":
+        return lambda x: S * (x - R) ** 3
+    if name == "quadratic":
+        return lambda x: S * (x * x - R * R)
+    if name == "exp":
+        return lambda x: S * (np.exp(x) - np.exp(R))
+    if name == "tanh":
+        return lambda x: S * np.tanh(dtype(50) * (x - R))
+    if name == "jump":
+        return lambda x: S * np.where(x >= R, dtype(1), dtype(-1))
+    if name == "sin":
+        return lambda x: S * np.sin(dtype(3 * np.pi) * (x - R))
+    raise KeyError(name)
+
+
 def run_case(case):
+    if case["section"] == "options":
+        return options_case(case)
     return scalar_case(case) if case["section"] == "scalar" else vector_case(case)
 
 
@@ -184,7 +303,7 @@ def run(ctx):
     scales = [1e-6, 1e-3, 1.0, 1e3, 1e6, 1e9] if ctx.quick else [10.0 ** e for e in range(-6, 10)]
     ctx.rule = ("scalar: 7 functions (linear, flat cubic root, quadratic, exp, steep tanh, jump, multi-root sine) x 15 brackets (both orders, root interior / exactly at an end / absent, "
                 "|x| > 4, narrow, wide with ends orders of magnitude away from the root) x %d scales x tol in {None, 1e-8, 1e-3} x 3 dtypes; vector: every window of length 1..16 (two strides) over the same enumeration, compared component-wise "
-                "with the scalar solver; distinct = distinct (solver, function, dtype, success, large-scale, bracket-order) classes" % len(scales))
+                "with the scalar solver; options: return_interval, verbose, tol below eps, one array-valued function (plain / mask-accepting, masked entries zero-filled or not), bounds shared by a list of functions - each against the plain call; distinct = distinct (solver, function, dtype, success, large-scale, bracket-order) classes" % len(scales))
     ctx.assumptions += ["'within the tolerance' = max(tol, 4 ulp) relative to max(1, |x|); tol below 4*eps is raised to 4*eps as documented in the solvers",
                         "for multi-root (sine) and flat (cubic) cases the vector and scalar solvers may legitimately stop at different certified points; flags must still agree"]
     cases = []
@@ -198,10 +317,16 @@ def run(ctx):
                     if ctx.quick and dn != "float64" and L not in (1, 3, 16):
                         continue
                     cases.append(dict(section="vector", dtype=dn, tol=tol, length=L, stride=stride, scales=scales))
+    for dn in DT:
+        for tol in (None, 1e-3):
+            for fn in FUNCS:
+                cases.append(dict(section="options", dtype=dn, tol=tol, fn=fn, scales=[1e-6, 1.0, 1e6] if ctx.quick else scales[::2]))
     grid.pmap(run_case, cases, ctx, horizon=900, chunksize=1)
 
 
 def replay(case):
+    if case["section"] == "options":
+        return options_case(dict(section="options", dtype=case["dtype"], tol=case["tol"], fn=case["fn"], scales=[case["scale"]]))
     if case["section"] == "scalar":
         return scalar_case(dict(section="scalar", dtype=case["dtype"], tol=case["tol"], scales=[case["scale"]]))
     return vector_case(dict(section="vector", dtype=case["dtype"], tol=case["tol"], length=case["length"], stride=case["stride"], scales=case["scales"]))
